@@ -5,6 +5,7 @@ import (
 	"path/filepath"
 	"runtime"
 	"strconv"
+	"strings"
 	"time"
 )
 
@@ -44,6 +45,8 @@ func vShapes() []vShape {
 		{OKLevel, "m", func() Attrs { return Attrs{Group("g", "x", 1, "y", Group("h", "z", 2)), NewAttr("k", 1)} }, 1},
 		{InfoLevel, "a message that is longer than the minimal width of the first line", func() Attrs { return Attrs{NewAttr("k", []int{1, 2})} }, 2},
 		{FailLevel, "m", func() Attrs { return Attrs{NewAttr("d", 1500 * time.Millisecond), NewAttr("t", vTime0())} }, 1},
+		// a message and a value that outgrow the initial capacity of the formatting buffer
+		{InfoLevel, strings.Repeat("long message ", 60), func() Attrs { return Attrs{NewAttr("big", strings.Repeat("v", 700))} }, 0},
 	}
 }
 
